@@ -131,4 +131,15 @@ theorem serveHTTP_keeps_the_request_context :
     Generated.C19.serveHTTPServeArgs = ["req"] ∧
     requestDeadline = none := by decide
 
+/-- The `http.ResponseWriter` `ServeHTTP` hands the handler is either the server's own writer or a wrapper of
+package proxy around it whose `WriteHeader` passes every call on, unconditionally, before anything else can
+happen — the model's `RW.writeHeader` (`guard = false`). The streams run informational responses 102/103
+followed by a stall; a writer that drops calls depending on the code or on headers they do not generate
+(100 Continue, a particular `Link` value) is what this obligation excludes
+(`Props.C19.first_call_only_writer_loses_504` says what dropping does). -/
+theorem responseWriter_passes_every_WriteHeader_through :
+    Generated.C19.serveHTTPWriterWriteHeader = "every-call-passed-through" ∧
+    RW.writeHeader = RW.writeHeaderWith false := by
+  exact ⟨by decide, rfl⟩
+
 end Fabio.Props.C19Facts
